@@ -98,6 +98,15 @@ func modeConsumer(count int, trace, tmp string) {
 		}
 		fresh := 0
 		n := g.edit(o, p, 1+r.Intn(4), &fresh)
+		if k == 0 {
+			// one very large comparison: a diff of about 2 MB has to be logged as completely as a small one
+			o, n = nil, nil
+			pad := strings.Repeat(".", 1500)
+			for i := 0; i < 500; i++ {
+				o = append(o, g.id(fmt.Sprintf("old line %06d %s", i, pad)))
+				n = append(n, g.id(fmt.Sprintf("new line %06d %s", i, pad)))
+			}
+		}
 		ot, nt := g.finish(o, r.Intn(3) == 0), g.finish(n, r.Intn(3) == 0)
 		if cmd == "cmpenv" {
 			// cmp reads the first file as it is: only the second one holds references
